@@ -7,6 +7,10 @@ HOOK_COMMITS = subprocess.run(["git", "-C", "/repo", "log", "--format=%h %s", "-
 
 # id -> (technique, level text, level note, design ref)
 CLAIMED = {
+ "C20": ("schedule-controlled property-based testing: the harness parks the I/O thread inside the mock transport's write and owns the composition and order of the next poll batch; all 190 ordered event subsets enumerated, request variants generated; differential oracle against serial executions on the same build",
+         "Exploration, exhaustive over event-set shapes: no I/O-thread panic, Connection::close reports the server's close, every racing request returns what some serial execution (or the close's error) yields.",
+         "The achieved batch composition is measured with the passive cfg(amiquip_verif) batch trace (used for non-triviality accounting only). Request enqueue order relies on 3 ms pauses while the I/O thread is parked; cases whose intended order was not achieved are counted as trivial, never as failures. Shapes with Channel.Close after the server's own Connection.Close are normalised (a compliant server cannot send them).",
+         "DESIGN.md 4/C20"),
  "C03": ("property-based testing of the real client against generated server histories on a mock transport (proptest, custom runner) + model-based probe of the content collector",
          "Exploration: generated valid server histories (channels x consumers x get/return, arbitrary body framing, cross-channel interleaving, read segmentation down to single bytes, an undrained consumer) are played to the real I/O thread; every receiver must yield exactly the scripted messages once, in order, field by field. The collector is additionally compared with a reference collector at 10^5-10^6 sequences.",
          "Trusts amq-protocol's codec for generating server frames, OS scheduling of the per-channel client threads (sampled, not enumerated). Bodies <= 12 KB end to end, <= 20 KB in the probe.",
